@@ -364,7 +364,52 @@ def build(U):
     U.add_fn(P['fn'])
     U.add("}\n")
     U.prelude('c06_lemma.rs')
+    U.prelude('epoch_spec.rs')
+    U.add(FIRST_HIT_LEMMA)
+    U.add(epoch_lemma('takeover_master', P['contract'], 'cluster_name: ClusterName, failed_proxy_address: String, r: Result<(), MetaStoreError>', hint=TAKEOVER_EPOCH_HINT))
     U.add("} // verus!\nfn main() {}\n")
+
+
+FIRST_HIT_LEMMA = '''
+pub proof fn lemma_first_hit(oc: ClusterStore, fa: Seq<char>, n: int) -> (j: int)
+    requires 0 <= n <= oc.chunks@.len()
+    ensures (j == -1 && forall|i: int| 0 <= i < n ==> !is_hit(#[trigger] oc.chunks@[i], fa)) || (0 <= j < n && is_first_hit(oc, j, fa))
+    decreases n
+{
+    if n == 0 { -1 } else {
+        let j = lemma_first_hit(oc, fa, n - 1);
+        if j != -1 { j } else if is_hit(oc.chunks@[n - 1], fa) { n - 1 } else { -1 }
+    }
+}
+'''
+TAKEOVER_EPOCH_HINT = '''
+    if r is Ok {
+        let oc = o.clusters@[cluster_name]; let nc = n.clusters@[cluster_name]; let fa = failed_proxy_address@;
+        let j = lemma_first_hit(oc, fa, oc.chunks@.len() as int);
+        if j != -1 { let tr = oc.chunks@[j]; }
+        assert(nc.epoch == n.global_epoch || (nc.epoch == oc.epoch && nc.chunks@ =~= oc.chunks@));
+        assert forall|k: ClusterName| o.clusters@.contains_key(k) && n.clusters@.contains_key(k) implies
+            (#[trigger] n.clusters@[k]).epoch >= o.clusters@[k].epoch
+            && (!content_eq(o.clusters@[k], n.clusters@[k]) ==> n.clusters@[k].epoch == n.global_epoch && n.global_epoch > o.global_epoch) by {
+            if k != cluster_name { assert(n.clusters@[k] == o.clusters@[k]); }
+        }
+        assert(n.clusters@.dom() =~= o.clusters@.dom());
+    }
+'''
+
+
+def epoch_lemma(name, contract, params, extra_requires='', hint=''):
+    """C04 link: the *proved* postcondition of a mutator implies the epoch contract.  The lemma's requires is the
+    ensures clause of the contract, transcribed mechanically (old(self).store -> o, final(self).store -> n)."""
+    ens = contract[contract.index('ensures') + len('ensures'):]
+    ens = ens.replace('final(self).store', 'n').replace('old(self).store', 'o').replace('*cluster_name', 'cluster_name')
+    return '''
+pub proof fn lemma_%s_epoch_contract(o: MetaStore, n: MetaStore, %s)
+    requires inv_epoch(o), o.global_epoch < u64::MAX - 1, %s
+%s
+    ensures epoch_contract(o, n)
+{ %s }
+''' % (name, params, extra_requires, ens.rstrip().rstrip(','), hint)
 
 MUST_FAIL = '''
 // the trusted T-iter axiom must not prove that an element modified before `break` is unchanged
